@@ -10,9 +10,9 @@ TECH = {
     'C02': 'provenance terms of encode; integer linear-form guard rule (MUST-PRECEDE) and all-or-nothing write rule on decode paths; packet decode table; event-sequence path rule on the ASGI body assembly loop',
     'C03': 'WHO-MAY (queue consumers, poll callers) over resolved calls + path rules on poll/writer/handle_get_request + EXIT-STATE of the upgrade region + abstract cases (text/bytes, empty or not) over every driver send()',
     'C04': 'dispatch TABLE over wire types 0..9 by abstract case enumeration + path rules on handle_post_request and the WebSocket loop',
-    'C05': 'ONCE typestate rule on close() (guard, set-before-event, monotone flags) + containment rule on handler calls + NO-EFFECT-AFTER(close) on receive loops',
+    'C05': 'ONCE typestate rule on close() (guard, set-before-event, monotone flags) + containment rule on handler calls + NO-EFFECT-AFTER(close) on receive loops + constant table of the reason texts + unawaited-coroutine-call rule (asyncio) + handler-coverage rule on the ASGI close()',
     'C06': 'ordered guarded-effect path rule (handshake) + EXIT-STATE over the inlined upgrade region with explicit-raise exceptional edges (per-flavour driver raise summaries, exception-class DAG) + NO-ESCAPE(EngineIOError) from the handshake',
-    'C07': 'linear-form comparison of deadline/timeout expressions + path rules on _send_ping/check_ping_timeout/send/poll/service task + WHO-MAY write last_ping + unbounded-queue construction rule + no early exit from a monitor pass',
+    'C07': 'linear-form comparison of deadline/timeout expressions + path rules on _send_ping/check_ping_timeout/send/poll/service task + WHO-MAY write last_ping + unbounded-queue construction rule + no early exit from a monitor pass + WHO-MAY call schedule_ping over the call graph + constructor slice storing ping_timeout unchanged',
     'C08': 'ONCE / EXIT-STATE path rules over sliced client CFGs (connect, disconnect, read-loop epilogues) + def-use rule on what _reset() clears + handler-coverage rule on response decoding + containment/legacy-retry rules of _trigger_event',
     'C09': 'dispatch TABLE over wire types for the client + write-loop dataflow rules + URL decision table + linear-form timeout rules',
     'C10': 'AGREE across components: producer bound vs consumer limit, timer dominance (linear forms), shared codec classes and handshake constants',
@@ -21,11 +21,11 @@ TECH = {
     'C13': 'MUST-PRECEDE (origin gate first) + abstract cases over cors_allowed_origins kinds + control-dependence of emitted CORS headers + per-response provenance of the CORS header list + constructor slice storing the policy unchanged',
     'C14': 'integer linear-form gate rules (POST length, frame length, packet count) + WHO-MAY(ws.wait) + bounded-read argument rule + limit-site rules (class attribute only, no gateway limit) + ASGI body assembly path rule',
     'C15': 'response-shape kinds + exactly-one-response path rule + NO-BLOCK reachability with literal-kwarg pruning + ASGI event-sequence path enumeration',
-    'C16': 'WHO-MAY / lookup-discipline rules on the session table + reaping-site path rules + fresh-container ownership rule',
+    'C16': 'WHO-MAY / lookup-discipline rules on the session table + reaping-site path rules + fresh-container ownership rule + handler-coverage rules (asyncio poll() cancellation, ASGI close())',
     'C17': 'template match of generate_id + closed arithmetic obligations over extracted constants (evaluated, no solver)',
     'C18': 'SIBLING fact-set diff of 22 threaded/asyncio function pairs modulo async normalisation and a reviewed-difference table + shared oracle rules',
     'C19': 'CFG slice of the compression block with pairing/condition path rules + codec registry AGREE + JSONP escaper TAINT-completeness rule',
-    'C20': 'routing decision tables from path guards (WSGI/ASGI) + endpoint normalisation by constant folding over representative spellings + lifespan event-sequence path rule + TAINT(request path -> filename) sanitizer rule',
+    'C20': 'routing decision tables from path guards (WSGI/ASGI) + endpoint normalisation by constant folding over representative spellings + lifespan event-sequence path rule + TAINT(request path -> filename) sanitizer rule with same-term test (no rewrite between test and use)',
 }
 checks = []
 for pid in sorted(_EX):
